@@ -1,5 +1,6 @@
 import AspireModel.Props.C12
 import AspireModel.Gen.SrcLoop
+import AspireModel.Gen.SrcDump
 /-
   C12, tie to the source: the cadence rule inside `maybe_checkpoint` of `SMCSampler.sample`
   (`should_checkpoint = force or (checkpoint_every is not None and checkpoint_every > 0 and iterations % checkpoint_every == 0)`),
@@ -35,6 +36,22 @@ theorem src_maybeCheckpoint {P S : Type} (cfg : SmcCfg S) (force : Bool) (st : S
 theorem src_no_callback_no_checkpoint {P S : Type} (cfg : SmcCfg S) (force : Bool) (st : St P S) (z : Option S)
     (he : cfg.every = none) : maybeCheckpoint cfg force st z = st := by
   simp [maybeCheckpoint, he]
+
+/-- `utils.dump_pickle_to_hdf`, translated from the source on every run in the dataset vocabulary (create if missing with the
+    payload's length, else resize if the sizes differ, then write), is the model's `dumpPickle` -/
+theorem tie_dump_pickle_to_hdf (blob : Bytes) (old : Option Bytes) :
+    Gen.dump_pickle_to_hdf blob old = some (dumpPickle blob old) := by
+  cases old with
+  | none => simp [Gen.dump_pickle_to_hdf, dumpPickle]
+  | some d =>
+    simp only [Gen.dump_pickle_to_hdf, dumpPickle, Gen.dsLen, Option.isNone_some, Bool.false_eq_true, if_false]
+    by_cases h : blob.length = d.length <;> simp [h]
+
+/-- hence after the source's dump the dataset holds byte for byte the new payload, whatever it held before
+    (longer, shorter, equal, or nothing) -/
+theorem src_dump_exact (blob : Bytes) (old : Option Bytes) :
+    Gen.dump_pickle_to_hdf blob old = some blob := by
+  rw [tie_dump_pickle_to_hdf, dump_exact]
 
 example : Gen.should_checkpoint false (some 3) 6 = true := by decide
 example : Gen.should_checkpoint false (some 3) 7 = false := by decide
